@@ -47,15 +47,87 @@ type kvAddData struct {
 func (kgdb *KVInterfaceGDB) AddVertex(vertices []*gdbi.Vertex) error {
 	err := kgdb.kvg.kv.BulkWrite(func(tx kvi.KVBulkWrite) error {
 		var bulkErr *multierror.Error
+		inserted := 0
 		for _, vert := range vertices {
-			if err := insertVertex(tx, kgdb.kvg.idx, kgdb.graph, vert.ToVertex()); err != nil {
+			if err := kgdb.insertVertex(tx, vert.ToVertex()); err != nil {
 				bulkErr = multierror.Append(bulkErr, err)
+			} else {
+				inserted++
 			}
 		}
-		kgdb.kvg.ts.Touch(kgdb.graph)
+		if inserted > 0 {
+			kgdb.kvg.ts.Touch(kgdb.graph)
+		}
 		return bulkErr.ErrorOrNil()
 	})
 	return err
+}
+
+// labelEntryKey is the label-index entry of an element ("v" or "e") of a graph
+func labelEntryKey(graph, kind, label, gid string) []byte {
+	term, ttype := kvindex.GetTermBytes(label)
+	return kvindex.EntryKey(fmt.Sprintf("%s.%s.label", graph, kind), ttype, term, gid)
+}
+
+// edgeKeys returns every key that records an edge
+func edgeKeys(graph, eid, src, dst, label string, etype byte) [][]byte {
+	return [][]byte{
+		EdgeKey(graph, eid, src, dst, label, etype),
+		SrcEdgeKey(graph, src, dst, eid, label, etype),
+		DstEdgeKey(graph, src, dst, eid, label, etype),
+		labelEntryKey(graph, "e", label, eid),
+	}
+}
+
+// findEdgeKey returns the stored key of edge `eid`, nil if there is none
+func (kgdb *KVInterfaceGDB) findEdgeKey(eid string) []byte {
+	ekeyPrefix := EdgeKeyPrefix(kgdb.graph, eid)
+	var ekey []byte
+	kgdb.kvg.kv.View(func(it kvi.KVIterator) error {
+		for it.Seek(ekeyPrefix); it.Valid() && bytes.HasPrefix(it.Key(), ekeyPrefix); it.Next() {
+			ekey = it.Key()
+		}
+		return nil
+	})
+	return ekey
+}
+
+func (kgdb *KVInterfaceGDB) insertVertex(tx kvi.KVBulkWrite, vertex *gripql.Vertex) error {
+	if err := vertex.Validate(); err != nil {
+		return err
+	}
+	// a vertex stored under another label is replaced: drop its old label-index entry
+	if old := kgdb.GetVertex(vertex.Gid, false); old != nil && old.Label != vertex.Label {
+		if err := kgdb.kvg.kv.Delete(labelEntryKey(kgdb.graph, "v", old.Label, vertex.Gid)); err != nil {
+			return fmt.Errorf("AddVertex Error %s", err)
+		}
+	}
+	return insertVertex(tx, kgdb.kvg.idx, kgdb.graph, vertex)
+}
+
+func (kgdb *KVInterfaceGDB) insertEdge(tx kvi.KVBulkWrite, edge *gripql.Edge) error {
+	if err := edge.Validate(); err != nil {
+		return err
+	}
+	// the edge key embeds endpoints and label: an edge stored with other
+	// endpoints or another label is replaced, so its old record has to go
+	if old := kgdb.findEdgeKey(edge.Gid); old != nil {
+		_, _, sid, did, label, etype := EdgeKeyParse(old)
+		if sid != edge.From || did != edge.To || label != edge.Label {
+			err := kgdb.kvg.kv.Update(func(dtx kvi.KVTransaction) error {
+				for _, k := range edgeKeys(kgdb.graph, edge.Gid, sid, did, label, etype) {
+					if err := dtx.Delete(k); err != nil {
+						return err
+					}
+				}
+				return nil
+			})
+			if err != nil {
+				return err
+			}
+		}
+	}
+	return insertEdge(tx, kgdb.kvg.idx, kgdb.graph, edge)
 }
 
 func insertVertex(tx kvi.KVBulkWrite, idx *kvindex.KVIndex, graph string, vertex *gripql.Vertex) error {
@@ -122,12 +194,17 @@ func insertEdge(tx kvi.KVBulkWrite, idx *kvindex.KVIndex, graph string, edge *gr
 func (kgdb *KVInterfaceGDB) AddEdge(edges []*gdbi.Edge) error {
 	err := kgdb.kvg.kv.BulkWrite(func(tx kvi.KVBulkWrite) error {
 		var bulkErr *multierror.Error
+		inserted := 0
 		for _, edge := range edges {
-			if err := insertEdge(tx, kgdb.kvg.idx, kgdb.graph, edge.ToEdge()); err != nil {
+			if err := kgdb.insertEdge(tx, edge.ToEdge()); err != nil {
 				bulkErr = multierror.Append(bulkErr, err)
+			} else {
+				inserted++
 			}
 		}
-		kgdb.kvg.ts.Touch(kgdb.graph)
+		if inserted > 0 {
+			kgdb.kvg.ts.Touch(kgdb.graph)
+		}
 		return bulkErr.ErrorOrNil()
 	})
 	return err
@@ -136,19 +213,27 @@ func (kgdb *KVInterfaceGDB) AddEdge(edges []*gdbi.Edge) error {
 func (kgdb *KVInterfaceGDB) BulkAdd(stream <-chan *gdbi.GraphElement) error {
 	err := kgdb.kvg.kv.BulkWrite(func(tx kvi.KVBulkWrite) error {
 		var bulkErr *multierror.Error
+		inserted := 0
 		for elem := range stream {
 			if elem.Vertex != nil {
-				if err := insertVertex(tx, kgdb.kvg.idx, kgdb.graph, elem.Vertex.ToVertex()); err != nil {
+				if err := kgdb.insertVertex(tx, elem.Vertex.ToVertex()); err != nil {
 					bulkErr = multierror.Append(bulkErr, err)
+				} else {
+					inserted++
 				}
 				continue
 			}
 			if elem.Edge != nil {
-				if err := insertEdge(tx, kgdb.kvg.idx, kgdb.graph, elem.Edge.ToEdge()); err != nil {
+				if err := kgdb.insertEdge(tx, elem.Edge.ToEdge()); err != nil {
 					bulkErr = multierror.Append(bulkErr, err)
+				} else {
+					inserted++
 				}
 				continue
 			}
+		}
+		if inserted > 0 {
+			kgdb.kvg.ts.Touch(kgdb.graph)
 		}
 		return bulkErr.ErrorOrNil()
 	})
@@ -157,35 +242,22 @@ func (kgdb *KVInterfaceGDB) BulkAdd(stream <-chan *gdbi.GraphElement) error {
 
 // DelEdge deletes edge with id `key`
 func (kgdb *KVInterfaceGDB) DelEdge(eid string) error {
-	ekeyPrefix := EdgeKeyPrefix(kgdb.graph, eid)
-	var ekey []byte
-	kgdb.kvg.kv.View(func(it kvi.KVIterator) error {
-		for it.Seek(ekeyPrefix); it.Valid() && bytes.HasPrefix(it.Key(), ekeyPrefix); it.Next() {
-			ekey = it.Key()
-		}
-		return nil
-	})
-
+	ekey := kgdb.findEdgeKey(eid)
 	if ekey == nil {
 		return fmt.Errorf("Edge Not Found")
 	}
 
-	_, _, sid, did, _, _ := EdgeKeyParse(ekey)
+	_, _, sid, did, label, etype := EdgeKeyParse(ekey)
 
-	skey := SrcEdgeKeyPrefix(kgdb.graph, sid, did, eid)
-	dkey := DstEdgeKeyPrefix(kgdb.graph, sid, did, eid)
-
-	if err := kgdb.kvg.kv.Delete(ekey); err != nil {
-		return err
-	}
-	if err := kgdb.kvg.kv.Delete(skey); err != nil {
-		return err
-	}
-	if err := kgdb.kvg.kv.Delete(dkey); err != nil {
-		return err
-	}
-	kgdb.kvg.ts.Touch(kgdb.graph)
-	return nil
+	return kgdb.kvg.kv.Update(func(tx kvi.KVTransaction) error {
+		for _, k := range edgeKeys(kgdb.graph, eid, sid, did, label, etype) {
+			if err := tx.Delete(k); err != nil {
+				return err
+			}
+		}
+		kgdb.kvg.ts.Touch(kgdb.graph)
+		return nil
+	})
 }
 
 // DelVertex deletes vertex with id `key`
@@ -194,24 +266,26 @@ func (kgdb *KVInterfaceGDB) DelVertex(id string) error {
 	skeyPrefix := SrcEdgePrefix(kgdb.graph, id)
 	dkeyPrefix := DstEdgePrefix(kgdb.graph, id)
 
+	vertex := kgdb.GetVertex(id, false)
+	if vertex == nil {
+		return fmt.Errorf("Vertex Not Found")
+	}
+
 	delKeys := make([][]byte, 0, 1000)
+	delKeys = append(delKeys, labelEntryKey(kgdb.graph, "v", vertex.Label, id))
 
 	kgdb.kvg.kv.View(func(it kvi.KVIterator) error {
 		for it.Seek(skeyPrefix); it.Valid() && bytes.HasPrefix(it.Key(), skeyPrefix); it.Next() {
 			skey := it.Key()
 			// get edge ID from key
 			_, sid, did, eid, label, etype := SrcEdgeKeyParse(skey)
-			ekey := EdgeKey(kgdb.graph, eid, sid, did, label, etype)
-			dkey := DstEdgeKey(kgdb.graph, sid, did, eid, label, etype)
-			delKeys = append(delKeys, skey, dkey, ekey)
+			delKeys = append(delKeys, edgeKeys(kgdb.graph, eid, sid, did, label, etype)...)
 		}
 		for it.Seek(dkeyPrefix); it.Valid() && bytes.HasPrefix(it.Key(), dkeyPrefix); it.Next() {
 			dkey := it.Key()
 			// get edge ID from key
 			_, sid, did, eid, label, etype := DstEdgeKeyParse(dkey)
-			ekey := EdgeKey(kgdb.graph, eid, sid, did, label, etype)
-			skey := SrcEdgeKey(kgdb.graph, sid, did, eid, label, etype)
-			delKeys = append(delKeys, skey, dkey, ekey)
+			delKeys = append(delKeys, edgeKeys(kgdb.graph, eid, sid, did, label, etype)...)
 		}
 		return nil
 	})
